@@ -92,14 +92,15 @@ def validate_execute_step(a):
 
 
 def replay_exit_codes(a, structured=False, fmt="json"):
-    """plain `validate` over sequences of <= 3 rules files (PASS / FAIL / SKIP / syntactically broken) on one document, as
+    """plain `validate` over sequences of <= 3 rules files (PASS / FAIL / SKIP / syntactically broken / comment-only) on one document, as
     files and as a --payload document: exit 0 iff nothing failed or errored, 19 if all parse and one FAILs, 5 if one does
     not parse and nothing FAILs, non-zero otherwise"""
     import itertools, json, os, shutil, subprocess, tempfile
     exe = a.cli()
     if not exe:
         return {"reproduced": False, "note": "native build failed"}
-    texts = {"P": "rule p { a == 1 }\n", "F": "rule f { a == 2 }\n", "S": "rule s when a == 2 { a == 1 }\n", "B": "rule b { a == }\n"}
+    texts = {"P": "rule p { a == 1 }\n", "F": "rule f { a == 2 }\n", "S": "rule s when a == 2 { a == 1 }\n", "B": "rule b { a == }\n",
+             "E": "# nothing but a comment\n"}
     data = '{"a": 1}\n'
     d = tempfile.mkdtemp(prefix="cfnverif_replay_")
     out = []
@@ -107,7 +108,7 @@ def replay_exit_codes(a, structured=False, fmt="json"):
         open(os.path.join(d, "d.json"), "w").write(data)
         for k, t in texts.items():
             open(os.path.join(d, f"{k}.guard"), "w").write(t)
-        seqs = [s for n in (1, 2, 3) for s in itertools.product("PFSB", repeat=n)]
+        seqs = [s for n in (1, 2, 3) for s in itertools.product("PFSBE", repeat=n)]
         for seq in seqs:
             exp = ("zero" if not set(seq) & {"F", "B"} else "19" if "B" not in seq else "5" if "F" not in seq else "nonzero")
             for mode in ("files", "payload"):
@@ -1669,6 +1670,195 @@ def replay_param_conflict(a):
 # --------------------------------------------------------------------------------------------------
 # C15: variable resolution through the scope chain, parameterised rule calls
 # --------------------------------------------------------------------------------------------------
+# --------------------------------------------------------------------------------------------------
+# C15 / C01: which scope each part of a block is evaluated in
+# --------------------------------------------------------------------------------------------------
+def origin(ex, v):
+    """(root value, [projection keys]) : where an opaque value was read from (field / payload / element projections)"""
+    rev = {}
+    for (b, k), val in ex.proj.items():
+        if isinstance(val, tuple) and val and val[0] == "opaque" and isinstance(b, int):
+            rev[val[1]] = (b, k)
+    keys = []
+    while v is not None and v[0] == "opaque" and v[1] in rev:
+        b, k = rev[v[1]]
+        keys.append(k)
+        v = ("opaque", b)
+    return v, list(reversed(keys))
+
+
+def scope_discipline(a):
+    """C15: `a block-level variable is evaluated against the block's current value, an outer one against the scope where it is
+    defined`: the `when` conditions of a rule / type block / inner when block run in the ENCLOSING scope (the resolver the function
+    was given), the body of a block runs in a scope built by block_scope(THIS block, current root, enclosing scope), and per selected
+    value the enclosing scope is wrapped in a ValueScope whose root is THAT value"""
+    EV = r"(?:(?:rules::)?eval::)?"
+    QR = enum_variants(a.src, "rules/mod.rs", "QueryResult")
+    LIT, RES = QR.index("Literal"), QR.index("Resolved")
+    BLK = struct_fields(a.src, "rules/exprs.rs", "Block")
+    RULE = struct_fields(a.src, "rules/exprs.rs", "Rule")
+    TB = struct_fields(a.src, "rules/exprs.rs", "TypeBlock")
+    BGC = struct_fields(a.src, "rules/exprs.rs", "BlockGuardClause")
+    AQ = struct_fields(a.src, "rules/exprs.rs", "AccessQuery")
+    models = {"eval_conjunction_clauses": mirexec.m_result_status, "eval_general_block_clause": mirexec.m_result_status,
+              "block_scope": lambda ex, av: ex.opq(), "root": lambda ex, av: ex.opq(), "query": m_result_opq, "next": mirexec.m_iter_next}
+
+    def is_arg(ex, v, name, keys=()):
+        o, ks = origin(ex, v) if v is not None and v[0] == "opaque" else (None, None)
+        return o is not None and o == ex.arg_env.get(name) and ks == list(keys)
+
+    def fn_is(v, name):
+        return v is not None and v[0] == "fn" and v[1] == name
+
+    # --- eval_general_block_clause: the block's own scope, parent = the scope given, root = that scope's current root
+    ex = a.exec(EV + "eval_general_block_clause", models, unroll=1, max_paths=2000)
+    a.fns.append("rules::eval::eval_general_block_clause")
+    bad = []
+    for p in ex.paths:
+        roots, scopes, conj = calls(p, "root"), calls(p, "block_scope"), calls(p, "eval_conjunction_clauses")
+        if p.outcome != "return" or len(conj) != 1 or len(scopes) != 1:
+            bad.append(pc_term(p.pc))
+            continue
+        sc, cj = scopes[0], conj[0]
+        ok = (is_arg(ex, sc[2][0], "_1") and is_arg(ex, sc[2][2], "_2")
+              and any(same(sc[2][1], r[3]) and is_arg(ex, r[2][0], "_2") for r in roots)
+              and same(cj[2][1], sc[3]) and is_arg(ex, cj[2][0], "_1", [f".{BLK.index('conjunctions')}"]) and is_arg(ex, cj[2][2], "_3"))
+        r = p.ret
+        ret_ok = r is not None and r[0] == "enum" and same(r, cj[3])
+        bad.append(f"(and {pc_term(p.pc)} (not {'true' if ok and ret_ok else 'false'}))")
+    _scope_discharge(a, "eval_general_block_clause/own-scope", ex, bad,
+                     "block body: evaluated exactly once, in block_scope(THIS block, root() of the scope given, the scope given), over the "
+                     "block's own conjunctions with the evaluator handed in; the result is returned as is")
+
+    # --- inner when block, rule, type block: conditions in the enclosing scope, body handed the enclosing scope
+    for fn, label, cond_keys, cond_arg, body_keys, body_arg, res_arg, body_fn in (
+            ("eval_when_condition_block", "inner when block", [], "_2", [], "_3", "_4", "eval_guard_clause"),
+            ("eval_rule", "rule", [f".{RULE.index('conditions')}", "as Some.0"], "_1", [f".{RULE.index('block')}"], "_1", "_2", "eval_rule_clause")):
+        ex = a.exec(EV + fn, models, unroll=1, max_paths=4000)
+        a.fns.append("rules::eval::" + fn)
+        bad = []
+        for p in ex.paths:
+            ok = True
+            for cj in calls(p, "eval_conjunction_clauses"):
+                ok = ok and is_arg(ex, cj[2][0], cond_arg, cond_keys) and is_arg(ex, cj[2][1], res_arg) and fn_is(cj[2][2], "eval_when_clause")
+            for b in calls(p, "eval_general_block_clause"):
+                ok = ok and is_arg(ex, b[2][0], body_arg, body_keys) and is_arg(ex, b[2][1], res_arg) and fn_is(b[2][2], body_fn)
+            ok = ok and not calls(p, "block_scope")
+            bad.append(f"(and {pc_term(p.pc)} (not {'true' if ok else 'false'}))")
+        _scope_discharge(a, fn + "/scopes", ex, bad,
+                         f"{label}: the `when` conditions are evaluated in the scope the function was given (not in a scope of the guarded "
+                         "block: its `let`s are not visible to its own guard), the body is handed that same scope and its own block; no other "
+                         "scope is created here")
+
+    # --- query block and type block: per selected value a ValueScope { root: THAT value, parent: the scope given }
+    for fn, label, body_keys, q_keys, has_cond in (
+            ("eval_guard_block_clause", "query block", [f".{BGC.index('block')}"], [f".{BGC.index('query')}", f".{AQ.index('query')}"], False),
+            ("eval_type_block_clause", "type block", [f".{TB.index('block')}"], [f".{TB.index('query')}"], True)):
+        ex = a.exec(EV + fn, models, unroll=2, max_paths=40000)
+        a.fns.append("rules::eval::" + fn)
+        bad = []
+        for p in ex.paths:
+            its = iterations(ex, p)
+            idx = {i: el for _k, el, _t, i in its}
+            cur, terms, ok = None, [], True
+            for i, e in enumerate(p.events):
+                if i in idx:
+                    cur = idx[i]
+                if e[0] != "call":
+                    continue
+                if e[1] == "query":
+                    ok = ok and is_arg(ex, e[2][0], "_2") and is_arg(ex, e[2][1], "_1", q_keys)
+                elif e[1] == "eval_conjunction_clauses":
+                    ok = ok and has_cond and is_arg(ex, e[2][0], "_1", [f".{TB.index('conditions')}", "as Some.0"]) and is_arg(ex, e[2][1], "_2") \
+                        and fn_is(e[2][2], "eval_when_clause")
+                elif e[1] == "eval_general_block_clause":
+                    sc = e[2][1]
+                    if not (sc[0] == "struct" and sc[1] == "ValueScope" and cur is not None and cur[0] == "opaque"
+                            and is_arg(ex, sc[2].get("parent"), "_2") and is_arg(ex, e[2][0], "_1", body_keys) and fn_is(e[2][2], "eval_guard_clause")):
+                        ok = False
+                        continue
+                    root = sc[2].get("root")
+                    d = disc(ex, cur)
+                    r_res = same(root, ex.proj_of(cur, "as Resolved.0"))
+                    r_lit = same(root, ex.proj_of(cur, "as Literal.0"))
+                    terms.append(f"(or (and (= {d} {RES}) {'true' if r_res else 'false'}) (and (= {d} {LIT}) {'true' if r_lit else 'false'}))")
+            good = "(and " + " ".join(terms + ["true" if ok else "false"]) + ")"
+            bad.append(f"(and {pc_term(p.pc)} (not {good}))")
+        _scope_discharge(a, fn + "/value-scopes", ex, bad,
+                         f"{label} over <= 2 selected values: the selection query (the block's own) and the `when` conditions run in the scope "
+                         "given; each body evaluation gets ValueScope { root: the value of THIS iteration (the payload of its Resolved / Literal "
+                         "entry), parent: the scope given } and the block's own body")
+        a.note_cut(fn, ex)
+
+
+def _scope_discharge(a, name, ex, bad, text):
+    c = a.discharge(name, ex, bad, text)
+    if c:
+        c["replay"] = replay_scopes(a)
+        c["reproduced"] = c["replay"].get("reproduced", False)
+        a.candidates.append(c)
+
+
+def replay_scopes(a):
+    """variables at file, rule and block level, shadowing, block-level variables against the current value, and `let`s of a guarded
+    block that must not be visible to the block's own guard"""
+    exe = a.cli()
+    if not exe:
+        return {"reproduced": False, "note": "native build failed"}
+    data = '{"Size": 80,\n "L": [ {"x": 1, "y": 1}, {"x": 2, "y": 2} ],\n "R": {"a": {"Type": "A::B::C", "v": 1}, "b": {"Type": "A::B::C", "v": 2}}}\n'
+    prefix = "let limit = 10\nlet big = Size\n"
+    cases = [
+        # guard of an inner when block sees the OUTER variable, the guarded block's own let does not leak into it
+        ("when %limit == 10 {\n    let limit = 99\n    Size <= 50\n  }", "FAIL"),
+        ("when %limit == 10 {\n    let limit = 99\n    Size == 80\n  }", "PASS"),
+        ("when %limit == 99 {\n    let limit = 99\n    Size <= 50\n  }", "SKIP"),
+        ("when %big == 80 {\n    let big = L[0].x\n    %big == 1\n  }", "PASS"),
+        ("when %big == 1 {\n    let big = L[0].x\n    %big == 1\n  }", "SKIP"),
+        # inside the guarded block the inner definition shadows the outer one
+        ("when %limit == 10 {\n    let limit = 99\n    %limit == 99\n  }", "PASS"),
+        ("when %limit == 10 {\n    let limit = 99\n    %limit == 10\n  }", "FAIL"),
+        # block-level variable: evaluated against the block's current value
+        ("L[*] {\n    let mine = x\n    %mine == y\n  }", "PASS"),
+        ("L[*] {\n    let mine = x\n    %mine == 1\n  }", "FAIL"),
+        ("some L[*] {\n    let mine = x\n    %mine == 2\n  }", "PASS"),
+        # an outer variable used inside a block is evaluated where it is defined (the document root)
+        ("L[*] {\n    %big == 80\n  }", "PASS"),
+        ("L[*] {\n    x <= %limit\n  }", "PASS"),
+        # nested: guard inside a query block sees the block-level variable of the enclosing block, not of its own body
+        ("L[*] {\n    let k = x\n    when %k == 1 {\n      let k = 5\n      y == 1\n    }\n  }", "PASS"),
+        ("L[*] {\n    let k = x\n    when %k == 2 {\n      let k = 1\n      y == 1\n    }\n  }", "FAIL"),
+        ("L[*] {\n    let k = x\n    when %k == 5 {\n      let k = 5\n      y == 99\n    }\n  }", "SKIP"),
+        # an unused variable never influences a verdict
+        ("when Size == 80 {\n    let unused = 1\n    Size == 80\n  }", "PASS"),
+    ]
+    out = a.replay_cases(exe, data, cases, prefix=prefix)
+    # rule-level guard and type-block guard: same discipline
+    more = []
+    for rules, exp in (
+            ("let limit = 10\nrule t when %limit == 10 {\n  let limit = 99\n  Size <= 50\n}\n", "FAIL"),
+            ("let limit = 10\nrule t when %limit == 99 {\n  let limit = 99\n  Size <= 50\n}\n", "SKIP"),
+            ("let limit = 10\nrule t when %limit == 10 {\n  let limit = 99\n  %limit == 99\n}\n", "PASS"),
+            ("let want = 1\nrule t {\n  A::B::C when %want == 1 {\n    let want = 7\n    v >= 1\n  }\n}\n", "PASS"),
+            ("let want = 1\nrule t {\n  A::B::C when %want == 7 {\n    let want = 7\n    v >= 1\n  }\n}\n", "SKIP"),
+            ("let want = 1\nrule t {\n  A::B::C {\n    let mine = v\n    %mine >= %want\n  }\n}\n", "PASS"),
+            ("let want = 2\nrule t {\n  A::B::C {\n    let mine = v\n    %mine >= %want\n  }\n}\n", "FAIL")):
+        d2 = data.replace('"R"', '"Resources"')
+        rc, rep, err = a.run_structured(exe, rules, [d2])
+        if not (rep and isinstance(rep, list) and rep):
+            crashed = rc == 101 or "panicked" in (err or "")
+            more.append({"rules_file": rules, "expected": exp, "observed": "PANIC (exit %s)" % rc if crashed else None, "exit": rc, "stderr": (err or "")[-200:]})
+            continue
+        r = rep[0]
+        got = "PASS" if "t" in r.get("compliant", []) else ("SKIP" if "t" in r.get("not_applicable", []) else "FAIL")
+        more.append({"rules_file": rules, "expected": exp, "observed": got})
+    badm = [o for o in more if o["observed"] is not None and o["observed"] != o["expected"]]
+    out["mismatches"] = out["mismatches"] + badm
+    out["cases"] = out["cases"] + more
+    out["reproduced"] = bool(out["mismatches"])
+    return out
+
+
+
 SCOPE_IMPL = r"(?:rules::)?eval_context::<impl at guard/src/rules/eval_context\.rs:\d+:\d+: \d+:\d+>::"
 
 
@@ -3047,9 +3237,9 @@ SITES = {
     "C16": [test_generic_report, test_get_by_result, test_get_by_rules, test_structured_evaluate, test_result_exit_code],
     "C02": [param_ctx_end_record],
     "C09": [report_partition, report_rule_listing, report_combine_union, unary_empty_on_expr, param_ctx_end_record],
-    "C15": [scope_resolution, param_rule_call, param_ctx_resolve],
+    "C15": [scope_resolution, scope_discipline, param_rule_call, param_ctx_resolve],
     "C04": [rule_status_semantics, root_scope_rule_table],
-    "C01": [rule_status_semantics, root_scope_rule_table],
+    "C01": [rule_status_semantics, root_scope_rule_table, scope_discipline],
     "C17": [merge_map, merge_unwrap, param_files_fold_step, data_input_params_wiring, structured_merge_closure],
     "C08": [merge_unwrap, rulegen_unwrap],
 }
